@@ -183,9 +183,10 @@ theorem C14_parseUtf16_size {bs : Bytes} {s : List Char} (h : parseUtf16 bs = .o
   have := parseUtf16_length h
   omega
 
-/-- `bootorder.Unmarshal`: one 8-character name per 2 bytes (a trailing odd byte gives one more). -/
+/-- `bootorder.Unmarshal`: one 8-character name per complete 2 bytes (F35 repair: a trailing odd
+    byte gives none). -/
 theorem C14_bootOrder_size (bs : Bytes) :
-    (bootOrder bs).length ≤ bs.length / 2 + 1 ∧ ∀ n ∈ bootOrder bs, n.length = 8 := by
+    (bootOrder bs).length ≤ bs.length / 2 ∧ ∀ n ∈ bootOrder bs, n.length = 8 := by
   refine ⟨?_, bootOrder_names bs⟩
   rw [bootOrder_length]; omega
 
@@ -274,7 +275,7 @@ example : readDb [] = some [] := by decide
 /-- the entry count is not taken from the header on trust: a list that declares 89 478 485 entries of
     48 bytes fails at the first missing one -/
 example : readDb (guidSha256 ++ le32 0xffffffec ++ le32 0 ++ le32 48 ++ zeros 48) = none := by decide
-example : bootOrder [1, 0, 0x2a] = ["Boot0001".toList, "Boot002A".toList] := by decide
+example : bootOrder [1, 0, 0x2a] = ["Boot0001".toList] := by decide
 example : hdText 1 (zeros 8) (zeros 8) (zeros 16) 7 = "HD(1,7,0,0x0,0x0)".toList := by decide
 /-- text that is not a GUID gives the zero GUID, not a crash -/
 example : stringToGuid "not-a-guid".toList = Guid.zero := by decide
